@@ -158,8 +158,73 @@ def chain_shape():
     return obs
 
 
+# ---- block.super renders the next definition up the chain (and only that one), with a `block`
+# ---- drop of its own whose super is the definition after that
+
+def _block_super(has_parent, autoescape):
+    @contract(EXT + ":BlockDrop.__getitem__", prop="C18", name=f"BlockDrop['super'][{'with' if has_parent else 'without'} a parent definition, autoescape={autoescape}]")
+    def bs(c):
+        env = mk_env(c, undefined=VClass("liquid.undefined", "Undefined"))
+        ctx = mk_ctx(c, env, autoescape=VBool(z3.BoolVal(autoescape)))
+        c.requires(c.st.deref(env).fields["context_depth_limit"].t >= 8, "context depth limit not reached")
+        grand = mk_item(c, "grandparent_definition", c.bool("gp_required"))
+        parent = mk_item(c, "parent_definition", c.bool("p_required"), grand) if has_parent else NONE
+        outer_buf = c.obj("io:StringIO", "buffer", __text__=c.str("out"))
+        self = c.obj(EXT + ":BlockDrop", "block_drop", token=NONE, buffer=outer_buf, context=ctx, name=c.str("block_name"), parent=parent)
+        inner_buf = c.obj("io:StringIO", "super_buffer", __text__=VStr(z3.StringVal("")))
+        rendered = c.str("parent_output")
+        scope = c.st.deref(ctx).fields["scope"]
+        maps0 = list(c.st.deref(c.st.deref(scope).fields["_maps"]).items)
+        c.summary(CTX + ".get_buffer", lambda eng, st, a, k: [(st, inner_buf)] if a[1] == outer_buf else [eng.raised(st, "AssertionError", "wrong parent buffer")])
+
+        def render(eng, st, a, k):
+            maps = st.deref(st.deref(scope).fields["_maps"]).items
+            st.log.append(("rendered", a[0], a[1], a[2], len(maps), maps[0]))
+            st.deref(a[2]).fields["__text__"] = rendered
+            return [(st, VInt(z3.Int("n_chars")))]
+        c.summary("liquid.ast:BlockNode.render", render)
+        c.summary("liquid.ast:Node.render", render)
+        c.summary("builtin:markupsafe.Markup", lambda eng, st, a, k: (st.log.append(("Markup", box(a[0]))), [(st, a[0])])[1])
+        c.call(const("super"), self_val=self)
+
+        def post(r):
+            rs = [e for e in r.st.log if e[0] == "rendered"]
+            if not has_parent:
+                return z3.BoolVal(not rs and isinstance(r.value, VRef) and r.st.deref(r.value).cls[1] == "Undefined")
+            pb = r.st.deref(r.st.deref(parent).fields["block"]).fields["block"]
+            if len(rs) != 1 or rs[0][1] != pb or rs[0][2] != ctx or rs[0][3] != inner_buf or rs[0][4] != len(maps0) + 1:
+                return z3.BoolVal(False)
+            ns = r.st.deref(rs[0][5])
+            drop = ns.items.get("block") if isinstance(ns, HDict) else None
+            if not isinstance(drop, VRef):
+                return z3.BoolVal(False)
+            df = r.st.deref(drop).fields
+            marks = [e for e in r.st.log if e[0] == "Markup"]
+            ok = df["parent"] == grand and df["context"] == ctx and df["buffer"] == inner_buf and (len(marks) == 1) == autoescape
+            restored = r.st.deref(r.st.deref(scope).fields["_maps"]).items == maps0
+            return z3.And(z3.BoolVal(bool(ok and restored)), box(r.value) == U.str(rendered.t), box(df["name"]) == box(r.st.deref(parent).fields["source_name"]))
+        c.ensures("super-renders-exactly-the-next-definition-up-the-chain-with-its-own-super(and-returns-its-text)", post)
+        c.raises()
+        c.replay("code", code=REPLAY)
+
+
+for _hp in (True, False):
+    for _ae in (True, False):
+        _block_super(_hp, _ae)
+
+
+@contract(EXT + ":BlockDrop.__getitem__", prop="C18", name="BlockDrop[other key]")
+def block_other_key(c):
+    k = c.str("key")
+    c.requires(k.t != z3.StringVal("super"))
+    self = c.obj(EXT + ":BlockDrop", "block_drop", token=NONE, buffer=NONE, context=NONE, name=c.str("block_name"), parent=NONE)
+    c.call(k, self_val=self)
+    c.raises("KeyError")
+    c.ensures("only-super-is-defined", lambda r: z3.BoolVal(False))
+
+
 not_covered("C18", "that _find_inheritance_nodes reaches blocks nested in every tag (children() completeness is C19's obligation)", "stacks deeper than 3 definitions (selection reads index 0 only; _store_blocks is uniform in the depth)",
-            "BlockDrop['super'] rendering (bounded check)")
+            "chained block.super.super (not supported by the library: super of super is rendered through the drop of the parent render)")
 
 bounded("C18", "bounded/C18.py")
 
